@@ -144,6 +144,18 @@ Fixpoint labels_of (l : list sink) : list string :=
   | _ :: r => labels_of r
   end.
 
+(* ------------------------------------------------------------------ the mode of a key file *)
+(* ioutil.WriteFile(path, data, perm): a file that is already there keeps its mode (perm is used only
+   when the file is created, masked by the umask) *)
+Definition write_file (existing : option N) (umask perm : N) : N :=
+  match existing with Some m => m | None => N.ldiff perm umask end.
+(* the client's private-key files: the mode of a file that is already there is set to 0600 before
+   the key is written into it *)
+Definition write_private (existing : option N) (umask : N) : N :=
+  write_file (match existing with Some _ => Some 384 | None => None end) umask 384.
+(* accessible to group or others *)
+Definition others_bits (m : N) : N := N.land m 63.
+
 (* ------------------------------------------------------------------ the agent *)
 
 Record entry := mkEntry { e_comment : bs; e_blob : bs; e_cert : bool }.
@@ -168,24 +180,76 @@ Definition delete_duplicates (c : bs) (a : agent) : agent := fold_left (delete_s
 (* withAddedKeyUpsertCertIntoAgentConnection *)
 Definition upsert (n : entry) (a : agent) : agent := agent_add n (delete_duplicates (e_comment n) a).
 
+(* The same with an agent that may fail: the List call, the k-th Remove call (counted from 0 within
+   one upsert) or the Add call may be refused.  A refused call has no effect on the agent.
+   deleteDuplicateEntries returns the first error (the loop stops there), and
+   withAddedKeyUpsertCertIntoAgentConnection returns it without adding. *)
+Record faults := mkFaults { f_list : bool; f_remove : nat -> bool; f_add : bool }.
+Definition no_faults : faults := mkFaults false (fun _ => false) false.
+
+Fixpoint delete_faulty (c : bs) (fr : nat -> bool) (k : nat) (snapshot : list entry) (acc : agent) : agent * bool :=
+  match snapshot with
+  | [] => (acc, true)
+  | e :: r =>
+      if is_dup c e then
+        if fr k then (acc, false)
+        else delete_faulty c fr (S k) r (agent_remove (e_blob e) acc)
+      else delete_faulty c fr k r acc
+  end.
+
+(* (agent afterwards, did the call report success); `snap` is the listing the agent returned, in
+   the agent's order *)
+Definition upsert_faulty_on (snap : list entry) (f : faults) (n : entry) (a : agent) : agent * bool :=
+  if f_list f then (a, false)
+  else
+    let '(a1, ok) := delete_faulty (e_comment n) (f_remove f) 0 snap a in
+    if ok then (if f_add f then (a1, false) else (agent_add n a1, true)) else (a1, false).
+Definition upsert_faulty (f : faults) (n : entry) (a : agent) : agent * bool := upsert_faulty_on a f n a.
+
+(* NOT the code: the clean-up treated as best effort — its error is ignored and the certificate added anyway *)
+Definition upsert_best_effort (f : faults) (n : entry) (a : agent) : agent * bool :=
+  if f_list f then (if f_add f then (a, false) else (agent_add n a, true))
+  else
+    let '(a1, _) := delete_faulty (e_comment n) (f_remove f) 0 a a in
+    if f_add f then (a1, false) else (agent_add n a1, true).
+
 Definition entry_eqb (x y : entry) : bool :=
   bs_eqb (e_comment x) (e_comment y) && bs_eqb (e_blob x) (e_blob y) && Bool.eqb (e_cert x) (e_cert y).
 
 (* correspondence: operations on an agent and the listing after each *)
 Inductive aop :=
 | AForeign (e : entry)      (* somebody else adds an identity (ssh-add) *)
-| AUpsert (e : entry).      (* the client installs a certificate *)
+| AUpsert (e : entry)       (* the client installs a certificate *)
+| AUpsertF (fl : bool) (fr : N) (fa : bool) (e : entry) (snap : agent) (ok : bool).
+   (* the same against a failing agent: List refused / the (fr-1)-th Remove refused (0 = none) / Add refused;
+      snap = the listing the agent returned, in ITS order (which of several certificates is removed
+      before a refused Remove depends on it; the x/crypto keyring reorders on removal);
+      ok = the call was observed to report success *)
+Definition faults_of (fl : bool) (fr : N) (fa : bool) : faults :=
+  mkFaults fl (fun k => negb (fr =? 0) && (N.of_nat k =? fr - 1)) fa.
 Definition astep (a : agent) (o : aop) : agent :=
-  match o with AForeign e => agent_add e a | AUpsert e => upsert e a end.
+  match o with
+  | AForeign e => agent_add e a
+  | AUpsert e => upsert e a
+  | AUpsertF fl fr fa e snap _ => fst (upsert_faulty_on snap (faults_of fl fr fa) e a)
+  end.
 
 Definition same_entries (x y : agent) : bool :=
   Nat.eqb (length x) (length y) && forallb (fun e => existsb (entry_eqb e) y) x &&
   forallb (fun e => existsb (entry_eqb e) x) y.
 
+(* the returned listing is the model's agent content (as a set), and the success flag is as predicted *)
+Definition aok (a : agent) (o : aop) : bool :=
+  match o with
+  | AUpsertF fl fr fa e snap ok =>
+      (fl || same_entries snap a) && Bool.eqb (snd (upsert_faulty_on snap (faults_of fl fr fa) e a)) ok
+  | _ => true
+  end.
+
 Fixpoint acheck (a : agent) (ops : list (aop * agent)) : bool :=
   match ops with
   | [] => true
-  | (o, listing) :: r => let a' := astep a o in same_entries a' listing && acheck a' r
+  | (o, listing) :: r => let a' := astep a o in same_entries a' listing && aok a o && acheck a' r
   end.
 
 (* ------------------------------------------------------------------ correspondence of one client run *)
